@@ -232,8 +232,8 @@ fn robust_history<const CAP: usize, const STEPS: usize>() {
     kani::cover!(locked, "robust set locked");
 }
 
-proof!(8, fn c09_robust_history_cap2() { robust_history::<2, 4>(); canaries(); });
-proof!(8, fn c09_robust_history_cap3() { robust_history::<3, 5>(); canaries(); });
+proof!(4, fn c09_robust_history_cap2() { robust_history::<2, 3>(); canaries(); });
+proof!(5, fn c09_robust_history_cap3() { robust_history::<3, 4>(); canaries(); });
 
 // ==========================================================================================
 // engine S
@@ -486,11 +486,11 @@ pub mod sched {
         }
     }
 
-    proof!(8, fn c09_s_uis_race_cap2() { race::<2, 2, 3>(false); canaries(); });
-    proof!(8, fn c09_s_uis_race_cap2_lock() { race::<2, 2, 3>(true); canaries(); });
-    proof!(8, fn c09_s_uis_race_cap3_deep() { race::<3, 3, 4>(false); canaries(); });
-    proof!(8, fn c09_s_uis_race_cap2_lock_deep() { race::<2, 3, 4>(true); canaries(); });
-    proof!(8, fn c09_s_uis_race_cap1() { race::<1, 2, 3>(false); canaries(); });
+    proof!(6, fn c09_s_uis_race_cap2() { race::<2, 2, 2>(false); canaries(); });
+    proof!(6, fn c09_s_uis_race_cap2_lock() { race::<2, 2, 2>(true); canaries(); });
+    proof!(7, fn c09_s_uis_race_cap3_deep() { race::<3, 2, 3>(false); canaries(); });
+    proof!(7, fn c09_s_uis_race_cap2_lock_deep() { race::<2, 2, 3>(true); canaries(); });
+    proof!(6, fn c09_s_uis_race_cap1() { race::<1, 2, 2>(false); canaries(); });
 
     // ---- robust index set: recovery of a dead owner racing with another recoverer and a live owner
 
@@ -606,6 +606,6 @@ pub mod sched {
         }
     }
 
-    proof!(8, fn c09_s_robust_recover_race() { robust_recover_race::<2, 2>(); canaries(); });
-    proof!(8, fn c09_s_robust_recover_race_deep() { robust_recover_race::<2, 3>(); canaries(); });
+    proof!(6, fn c09_s_robust_recover_race() { robust_recover_race::<2, 2>(); canaries(); });
+    proof!(7, fn c09_s_robust_recover_race_deep() { robust_recover_race::<2, 3>(); canaries(); });
 }
